@@ -62,13 +62,39 @@ type fired struct {
 	calls []int
 }
 
+// handler returns a handler that records id. Its dynamic type depends on id (a
+// function, a pointer to a struct, a struct value): applications register
+// whatever implements diam.Handler, and a key registered again may well get a
+// handler of another type than the one it replaces.
 func (f *fired) handler(id int) diam.Handler {
-	return diam.HandlerFunc(func(diam.Conn, *diam.Message) {
-		f.mu.Lock()
-		f.calls = append(f.calls, id)
-		f.mu.Unlock()
-	})
+	switch id % 3 {
+	case 1:
+		return &ptrHandler{f, id}
+	case 2:
+		return valHandler{f, id}
+	}
+	return diam.HandlerFunc(func(diam.Conn, *diam.Message) { f.note(id) })
 }
+
+func (f *fired) note(id int) {
+	f.mu.Lock()
+	f.calls = append(f.calls, id)
+	f.mu.Unlock()
+}
+
+type ptrHandler struct {
+	f  *fired
+	id int
+}
+
+func (h *ptrHandler) ServeDIAM(diam.Conn, *diam.Message) { h.f.note(h.id) }
+
+type valHandler struct {
+	f  *fired
+	id int
+}
+
+func (h valHandler) ServeDIAM(diam.Conn, *diam.Message) { h.f.note(h.id) }
 func (f *fired) take() []int {
 	f.mu.Lock()
 	defer f.mu.Unlock()
